@@ -340,6 +340,8 @@ def families(tier, seed):
        "template name(2) type(c:c) prio(2) loc(2) disp(2) with symbolic field characters")
     v2("dup-module", [(1, "mn"), b" py:module 0 first -\n", (1, "mn"), b" py:module 1 second", (1, "$ "), b"-\n", (1, "mn"), b" py:", (1, "mc"), b"odule 1 third -\n"],
        "three py:module-like entries with symbolic names: duplicate handling")
+    v2("display-name-words", [b"n", (1, "ab"), b" x:y 1 loc ", (1, "aC"), b"h", (1, ": "), (1, "1a-"), b" of ", (1, "ab"), b" z", (1, " 1"), b"\n"],
+       "display name of several words containing integers and ':' (the name/type/priority fields must be found from the left)")
     v2("dup-module-domain", [(1, "mn"), b" ", (1, "pc"), b"y:module 0 first -\n", (1, "mn"), b" ", (1, "pc"), b"y:module 1 second -\n"],
        "two '*y:module' entries with symbolic name and domain (py / cy): only py:module duplicates keep the first entry")
     v2("dup-other", [(1, "ab"), b" std:label 0 first T\n", (1, "ab"), b" std:label 1 second -\n"], "duplicate non-module entries (last wins in both)")
@@ -475,6 +477,11 @@ def _classify(raw, a, b):
         return "unterminated-last-line"
     if b"py:module" in raw and set(a) == set(b):
         return "duplicate-py-module"
+    import re
+
+    if re.search(rb"\r(?!\n)", raw.split(b"\n# The remainder")[0]) and raw.startswith(b"# Sphinx inventory version 1"):
+        # a carriage return that is not part of CRLF inside the HEADER of a version-1 file: Sphinx (str.splitlines) counts it as a line of its own
+        return "v1-header-lone-CR"
     return "general"
 
 
